@@ -327,6 +327,13 @@ inductive REv
   | redirect (url : Bytes) (code : Int)
   deriving DecidableEq, Repr
 
+/-- the settings of a `json.Encoder` / `xml.Encoder` -/
+structure JEnc where
+  prefix_ : Bytes := []
+  indent : Bytes := []
+  escapeHTML : Bool := true
+  deriving DecidableEq, Repr, Inhabited
+
 /-- calls received by an `http.ResponseWriter` below pkg/render -/
 inductive HEv
   | write (b : Bytes)
